@@ -80,17 +80,12 @@ Proof.
   apply ether_frame_decodes; assumption.
 Qed.
 
-(* AppendPayload: the class of calls that panic although the payload fits (recorded finding
-   ether-append-payload-cap): the caller's payload slice has more capacity than the frame has room *)
-Definition known_C03_ether_append_cap (b : slice) (ht : N) (pl : bytes) (pcap : nat) : bool :=
-  Nat.ltb (cap b - hlen_of_type ht) pcap.
-
+(* AppendPayload (after repo commit 564095a the destination is sliced by len(payload)) *)
 Definition pad46 (pl : bytes) : bytes := pl ++ repeat 0 (46 - length pl).
 
-Theorem ether_append_rt_partial b ht src dst pl pcap :
+Theorem ether_append_rt b ht src dst pl pcap :
   (14 + length pl <= cap b)%nat -> (60 <= cap b)%nat -> length src = 6%nat -> length dst = 6%nat ->
-  ht < 65536 -> hlen_of_type ht = 14%nat -> (length pl <= pcap)%nat ->
-  known_C03_ether_append_cap b ht pl pcap = false ->
+  ht < 65536 -> hlen_of_type ht = 14%nat ->
   exists e r,
     encode_ether b ht src dst = Ok e /\ ether_append e pl pcap = Ok r /\
     len r = Nat.max 60 (14 + length pl) /\ cap r = cap b /\
@@ -99,8 +94,7 @@ Theorem ether_append_rt_partial b ht src dst pl pcap :
     (w <- ether_payload r ;; Ok (view w))%res = Ok (pad46 pl) /\
     ref_ether (view r) = Some {| re_dst := dst; re_src := src; re_type := ht; re_payload := pad46 pl |}.
 Proof.
-  intros Hc H60 Hs Hd Hht Hhl Hpc Hk.
-  unfold known_C03_ether_append_cap in Hk. rewrite Hhl in Hk. apply Nat.ltb_ge in Hk.
+  intros Hc H60 Hs Hd Hht Hhl.
   eexists. eexists. split. { apply encode_ether_bytes; try assumption; lia. }
   assert (Hh : length (ether_hdr dst src ht) = 14%nat).
   { unfold ether_hdr. rewrite !app_length. cbn [length]. lia. }
@@ -121,7 +115,7 @@ Proof.
       runs.
       assert (E46 : length (pad46 pl) = 46%nat) by lia.
       rewrite E46. f_equal. f_equal. repeat f_equal.
-      rewrite firstn_all2 by lia. rewrite blit0 by lia. rewrite blit_app_r0.
+      rewrite blit0 by lia. rewrite blit_app_r0.
       rewrite blit0 by (rewrite repeat_length, skipn_length; lia).
       unfold pad46. rewrite <- app_assoc. f_equal.
       replace (60 - S (S (S (S (S (S (S (S (S (S (S (S (S (S (length pl)))))))))))))))%nat with (46 - length pl)%nat by lia.
@@ -130,7 +124,7 @@ Proof.
       runs.
       assert (E : pad46 pl = pl) by (unfold pad46; replace (46 - length pl)%nat with 0%nat by lia; apply app_nil_r).
       rewrite E. f_equal. f_equal. repeat f_equal.
-      rewrite firstn_all2 by lia. rewrite blit0 by lia. reflexivity. }
+      rewrite blit0 by lia. reflexivity. }
   split. { exact Happ. }
   split. { cbn [len]. lia. }
   split. { unfold cap at 1. cbn [arr]. unfold T, rest. rewrite !app_length, !skipn_length, Hh. unfold cap in *. lia. }
@@ -140,12 +134,8 @@ Proof.
   apply D6. intros E. rewrite E in Hpad. cbn [length] in Hpad. lia.
 Qed.
 
-Lemma ether_append_cap_refuted :
-  exists b ht src dst (pl : bytes) pcap,
-    (14 + length pl <= cap b)%nat /\ (60 <= cap b)%nat /\ (length pl <= pcap)%nat /\ hlen_of_type ht = 14%nat /\
-    known_C03_ether_append_cap b ht pl pcap = true /\
-    (e <- encode_ether b ht src dst ;; ether_append e pl pcap)%res = Panic.
-Proof.
-  exists (mkSlice (repeat 7 64) 64), 2048, [2;0;0;0;0;1], [2;0;0;0;0;2], [1;2;3], 4096%nat.
-  repeat split; try (cbn; lia); vm_compute; reflexivity.
-Qed.
+(* a payload slice with spare capacity (the former panic class) is appended like any other *)
+Example ether_append_spare_cap_ex :
+  exists r, (e <- encode_ether (mkSlice (repeat 7 64) 64) 2048 [2;0;0;0;0;1] [2;0;0;0;0;2] ;;
+             ether_append e [1;2;3] 4096)%res = Ok r /\ len r = 60%nat.
+Proof. eexists. split; [vm_compute; reflexivity|reflexivity]. Qed.
